@@ -70,7 +70,7 @@ class C16:
                    'objects returned by to_transposed are modelled by the same call on a fresh equal object (reference path)',
                    'seeded search samples histories; only the 539-spelling grid is covered exhaustively']
     PROBES = ['export_repeated', 'reimport', 'bad_call_then_valid', 'interrupt_delivered', 'direct_construct_export', 'triple_alteration',
-              'octave_extreme', 'edited_through_setters', 'reentrant_callback_delivered', 'cold_first_export_interrupted']
+              'octave_extreme', 'edited_through_setters', 'reentrant_callback_delivered', 'cold_first_export_interrupted', 'used_from_a_new_thread']
 
     # ---------------------------------------------------------------- plan
     def gen_plan(self, seed: int, index: int, tier: str) -> dict:
@@ -90,7 +90,7 @@ class C16:
             out = []
             for _ in range(n):
                 kind = seeds.weighted(rng, [('imp', 4), ('new', 3), ('exp', 5), ('exp_am', 2), ('read', 3), ('tr', 2), ('reimp', 2),
-                                            ('exp0', 2), ('set', 2.5)])
+                                            ('exp0', 2), ('set', 2.5), ('thread', 0.5)])
                 if kind == 'imp':
                     out.append({'op': 'imp', 's': spell(*rng.choice(GRID))})
                 elif kind == 'new':
@@ -108,6 +108,10 @@ class C16:
                     out.append({'op': 'tr', 'o': rng.randrange(64), 'iv': rng.choice(INTERVALS), 'dir': rng.choice(['up', 'down'])})
                 elif kind == 'reimp':
                     out.append({'op': 'reimp', 'o': rng.randrange(64)})
+                elif kind == 'thread':
+                    # the same codec objects used from a BRAND-NEW thread, started and joined at once (no concurrency: thread
+                    # identity is an environment dimension, e.g. for threading.local state, not a schedule)
+                    out.append({'op': 'thread', 'o': rng.choice([0, rng.randrange(64)]), 's': spell(*rng.choice(GRID))})
                 elif kind == 'set':
                     # the pitch object is mutable through its public setters: edit it to another grid value
                     l, a, o = rng.choice(GRID)
@@ -265,6 +269,30 @@ class C16:
                           add_v('reentrancy', 'reentrancy/inner-' + op['what'], seq, want_inner, inner_res.get('v'), outer=op['s'], inner=op['inner'])
                   check_pool(log.seq, 'reenter', None)
                   continue
+              if kind == 'thread':
+                  if not pool:
+                      continue
+                  import threading
+                  touched = op['o'] % len(pool)
+                  box = {}
+
+                  def work():
+                      box['exp'] = self._call(lambda: exporter.export_pitch(pool[touched]))
+                      box['exp_new'] = self._call(lambda: kp.HumdrumPitchExporter().export_pitch(pool[touched]))
+                      box['imp'] = self._call(lambda: state(importer.import_pitch(op['s'])))
+                  t = threading.Thread(target=work)
+                  t.start()
+                  t.join()
+                  seq = log.emit('client', 'thread', [touched, op['s']], [box.get('exp'), box.get('imp')])
+                  bump(probes, 'used_from_a_new_thread')
+                  want = spell_from_name(*model[touched])
+                  for key in ('exp', 'exp_new'):
+                      if want is not None and box.get(key) != want:
+                          add_v('export-wrong', 'export-wrong/in-new-thread', seq, want, box.get(key), pool_index=touched, which=key)
+                  if box.get('imp') != list(self._model_of_spelling(op['s'])):
+                      add_v('import-wrong', 'import-wrong/in-new-thread', seq, list(self._model_of_spelling(op['s'])), box.get('imp'), spelling=op['s'])
+                  check_pool(log.seq, 'thread', touched)
+                  continue
               if kind in ('exp', 'exp_am', 'read', 'tr', 'reimp', 'int_exp', 'set', 'bad_set'):
                   if not pool:
                       continue
@@ -340,7 +368,12 @@ class C16:
                   bump(faults, 'interrupt_' + op['payload'])
                   if delivered:
                       bump(probes, 'interrupt_delivered')
-                  # the interrupted call only has to raise; everything else is checked strictly below
+                  # the interrupted call may raise; it may never RETURN NORMALLY with wrong data (DESIGN 3.6)
+                  if out[0] == 'ok':
+                      want = spell_from_name(*model[touched])
+                      bump(probes)
+                      if want is not None and out[1] != want:
+                          add_v('export-wrong', 'export-wrong/returned-normally-after-injected-' + op['payload'], seq, want, out[1], pool_index=touched)
                   after_fault = True
                   kind = 'interrupted-exp'
               elif kind == 'exp_am':
